@@ -101,6 +101,11 @@ func (m *MMap) ResetFileSize() error {
 	return m.file.Truncate(m.virtualSize)
 }
 
+// RestoreFileSize 将文件大小恢复为当前映射区域的大小, 与 ResetFileSize 配对使用
+func (m *MMap) RestoreFileSize() error {
+	return m.file.Truncate(m.endOff)
+}
+
 // 如果有必要, 扩展映射区域
 func (m *MMap) remap(newBase int64, dataSize int) error {
 	// 如果映射区域已包含所需数据, 直接返回
